@@ -253,7 +253,7 @@ class LoadMixin(AbstractLoaderGenerator, BaseLoadHook):
             # (ex. for `float`), so explicitly convert it to `str` here.
             string = ', '.join([
                 str(cls.get_string_for_annotation(
-                    tp.replace(origin=arg, index=k),
+                    tp.replace(origin=arg, index=tp.index_into(k)),
                     extras))
                 for k, arg in enumerate(args)])
 
